@@ -46,11 +46,11 @@ vg_inmodule_generate() {
     echo "HARNESS-ERROR: tl2gen rejected the schema for $name (option set $cfg), see below" >&2
     grep -v "warning" "$VERIF_SCRATCH/gen_$name.log" | tail -20 >&2; return 2; }
   mkdir -p "$I/glue_$name"
-  local bytesimp=""
-  [ -d "$I/gen_$name/factory_bytes" ] && bytesimp="_ \"$VGI_MOD/gen_$name/factory_bytes\""
+  local bytesimp="" hasbytes=false
+  [ -d "$I/gen_$name/factory_bytes" ] && { bytesimp="_ \"$VGI_MOD/gen_$name/factory_bytes\""; hasbytes=true; }
   local tmpl="$VG/glue.go.tmpl"
-  [ "$cfg" = p0 ] && tmpl="$VG/glue_notl2.go.tmpl"
-  sed -e "s/CFG/$name/g" -e "s#BYTESIMPORT#$bytesimp#" -e "s#\"exp/#\"$VGI_MOD/#" "$tmpl" > "$I/glue_$name/glue.go"
+  case "$cfg" in p0|r0) tmpl="$VG/glue_notl2.go.tmpl" ;; esac
+  sed -e "s/CFG/$name/g" -e "s/HASBYTES/$hasbytes/" -e "s#BYTESIMPORT#$bytesimp#" -e "s#\"exp/#\"$VGI_MOD/#" "$tmpl" > "$I/glue_$name/glue.go"
   VGI_NAMES="$VGI_NAMES $name"
 }
 
